@@ -181,3 +181,26 @@ Section Prefix.
     pose proof (cdm_line_prefix m px 0%nat (repeat 0 nsp) Hpx R1). lra.
   Qed.
 End Prefix.
+
+(* ------------------------------------------------------------------------------------------ CDM range checks *)
+
+Lemma Qltb_lt : forall a b, Qltb a b = true <-> a < b.
+Proof. intros. unfold Qltb. destruct (Qlt_le_dec a b); split; intros; try assumption; try reflexivity; try discriminate; lra. Qed.
+
+(* parameters that pass the wrapper's checks make both divisors of the capture coefficients
+   (alpha = t*sigma*vth*fwc**beta / (2*vg),  g = 2*nt*vg / fwc**beta) non-zero *)
+Lemma cdm_params_divisors : forall vg beta fwc t, cdm_params_ok vg beta fwc t = true ->
+  0 < 2 * vg /\ 0 < fwc /\ vg <= 1 /\ fwc <= 10000000 /\ 0 <= beta <= 1 /\ 0 <= t <= 10.
+Proof.
+  intros vg beta fwc t H. unfold cdm_params_ok in H. repeat rewrite andb_true_iff in H.
+  destruct H as [[[[[[[H1 H2] H3] H4] H5] H6] H7] H8].
+  apply Qltb_lt in H1, H5. apply Qle_bool_iff in H2, H3, H4, H6, H7, H8. repeat split; lra.
+Qed.
+
+Lemma cdm_params_reject_zero : forall beta fwc t vg,
+  cdm_params_ok 0 beta fwc t = false /\ cdm_params_ok vg beta 0 t = false.
+Proof.
+  intros. split; unfold cdm_params_ok.
+  - reflexivity.
+  - assert (E : Qltb 0 0 = false) by reflexivity. rewrite E. rewrite !andb_false_r. reflexivity.
+Qed.
